@@ -68,4 +68,49 @@ def interpolateBody (sc : Scalar S) (isZero : S → Bool) [Inhabited S] (newFps 
   let conf : A3 S := (List.range newFrames).map fun t => (List.range P).map fun p => (List.range N).map fun n => (cell t p n).getD D sc.zero
   some (mkBody .numpy isZero newFps data conf none)
 
+/-! ## interpolation of any kind
+
+`kind xs ys x` stands for `scipy.interpolate.interp1d(xs, ys, axis=0, kind=this_kind)(x)` over the OBSERVED samples of one track (at least two of them), `this_kind`
+being chosen by the code from their number (`cubic` needs > 3, `quadratic` > 2, else linear). It is an uninterpreted parameter: everything around it is the code's. -/
+
+def interpTrackWith (sc : Scalar S) (kind : List S → List (List S) → S → List S) (steps newSteps : List S) (rows : List (Option (List S))) (width : Nat) : List (List S) :=
+  let obs := (steps.zip rows).filterMap fun (s, r) => r.map fun v => (s, v)
+  let zeros := List.replicate width sc.zero
+  match obs with
+  | [] => newSteps.map fun _ => zeros
+  | (first, _) :: _ =>
+    let last := (obs.getLast?.map (·.1)).getD first
+    let firstIdx' := firstIdx (fun t => leS sc first t) newSteps
+    let lastIdx := firstIdx (fun t => sc.lt last t) newSteps
+    newSteps.mapIdx fun i t =>
+      if firstIdx' ≤ i ∧ i < lastIdx then
+        match obs with
+        | [(_, v)] => v
+        | _ => kind (obs.map (·.1)) (obs.map (·.2)) t
+      else zeros
+
+def interpolateBodyWith (sc : Scalar S) (isZero : S → Bool) [Inhabited S] (kind : List S → List (List S) → S → List S) (newFps : S) (newFrames : Nat) (b : PBody S) : Option (PBody S) :=
+  let F := b.data.length
+  if F = 1 then none else
+  let P := (b.conf.headD []).length
+  let N := ((b.conf.headD []).headD []).length
+  let D := (((b.data.headD []).headD []).headD []).length
+  let steps := linspace01 sc F
+  let newSteps := linspace01 sc newFrames
+  let track (p n : Nat) : List (List S) :=
+    let rows := (List.range F).map fun f =>
+      let c := ((b.conf.getD f []).getD p []).getD n default
+      if isZero c then none else some ((((b.data.getD f []).getD p []).getD n []) ++ [c])
+    interpTrackWith sc kind steps newSteps rows (D + 1)
+  let cell (t p n : Nat) : List S := ((track p n).getD t (List.replicate (D + 1) sc.zero))
+  let data : A4 S := (List.range newFrames).map fun t => (List.range P).map fun p => (List.range N).map fun n => (cell t p n).take D
+  let conf : A3 S := (List.range newFrames).map fun t => (List.range P).map fun p => (List.range N).map fun n => (cell t p n).getD D sc.zero
+  some (mkBody .numpy isZero newFps data conf none)
+
+/-- the linear kind is the instance the rest of the model uses -/
+theorem interpTrack_eq_with (sc : Scalar S) [Inhabited S] (steps newSteps : List S) (rows : List (Option (List S))) (width : Nat) :
+    interpTrack sc steps newSteps rows width = interpTrackWith sc (lerpAt sc) steps newSteps rows width := rfl
+theorem interpolateBody_eq_with (sc : Scalar S) (isZero : S → Bool) [Inhabited S] (newFps : S) (newFrames : Nat) (b : PBody S) :
+    interpolateBody sc isZero newFps newFrames b = interpolateBodyWith sc isZero (lerpAt sc) newFps newFrames b := rfl
+
 end PoseVerif
